@@ -212,8 +212,9 @@ def normalise_spec(spec):
                     xs = [p[0] for p in fl.pts]
                     ys = [p[1] for p in fl.pts]
                     if max(xs) - min(xs) < 2 and max(ys) - min(ys) < 2:
+                        # former finding (repaired): a component whose own box is a single point used to be left out of
+                        # the parent's bounding box; such components are kept now and only counted
                         excluded += 1
-                        continue
                 cn = len(fl.pts)
                 if c["mode"] == "pt":
                     if sofar == 0 or cn == 0:
@@ -691,10 +692,10 @@ def run_font_case(case, acc):
         except (sfntref.ParseError, IndexError):
             pass
         if stamps_rewritten:
-            acc.exclude("head-timestamps-out-of-range-rewritten-by-woff2-writer (known finding)")
+            acc.exclude("head-timestamps-out-of-range-rewritten-by-woff2-writer (documented sanitisation in head.decompile; the WOFF2 writer has to recompile head)")
     if "gen" in src:
         if src["gen"].get("excluded_degenerate_components"):
-            acc.exclude("component-with-single-point-bbox (known finding)", src["gen"]["excluded_degenerate_components"])
+            acc.label("gen:component-with-single-point-bbox", src["gen"]["excluded_degenerate_components"])
         # the file FontBuilder wrote from the object model (recalcBBoxes=True): all clauses apply
         check_file(acc, dict(case, stage="build"), B, None, True, cache, extra_labels=["stage:build"], padding_clause=1)
     outs = {}
